@@ -228,7 +228,7 @@ func (fr *frame) fmtArg(pc fmtPiece, arg value, lenient bool) value {
 			return x
 		}
 		if lenient {
-			return mkStr(append(append([]value{uint8('"')}, x.b...), uint8('"')))
+			return mkStr(append(append([]value{uint8('"')}, strBytes(x)...), uint8('"')))
 		}
 		return fmt.Sprintf("%"+pc.spec+string(pc.verb), p.concreteString(x, "fmt verb on a symbolic string"))
 	}
@@ -292,7 +292,12 @@ func (fr *frame) sprintf(format value, args []value, lenient bool) value {
 	}
 	var out []value
 	ai := 0
-	for _, pc := range parseFormat(f) {
+	pcs := parseFormat(f)
+	if len(pcs) == 1 && pcs[0].verb != 0 && len(args) == 1 && !strings.ContainsAny(pcs[0].spec, "*[") {
+		// a lone verb: keep lazily rendered integers lazy
+		return fr.fmtArg(pcs[0], args[0], lenient)
+	}
+	for _, pc := range pcs {
 		if pc.verb == 0 {
 			out = append(out, strBytes(pc.lit)...)
 			continue
